@@ -16,7 +16,7 @@ RULE = ("cases = generated 2D/3D plotfiles (any layout, special payloads, format
         "non-monotone layout at some level")
 ASSUMPTIONS = ["generator/refparse trusted base", "pool shim M1 with shuffled schedules",
                "selections with duplicates or with no present name: only 'raise or taste-valid'"]
-REQUIRED_OBS = {"strained": 100, "cli_runs": 5, "level_dropped": 10, "reordered": 10, "two_digit_to_one_digit": 10}
+REQUIRED_OBS = {"strained": 100, "unusual_field_names": 4, "cli_runs": 5, "level_dropped": 10, "reordered": 10, "two_digit_to_one_digit": 10}
 TIMEOUT = {"quick": 300, "thorough": 1500}
 
 
@@ -29,6 +29,10 @@ def cases(tier, seed):
         if i % 4 in (0, 1):        # two-digit field counts in 2D and 3D (the count is part of every FAB header)
             c["gen"]["nfields"] = 10 + (i // 4) % 3
             c["gen"]["nlevels"] = min(c["gen"]["nlevels"], 2)
+        if i % 8 in (2, 7):        # unusual but valid names (metacharacters beside their look-alikes, blanks, UTF-8)
+            nf = c["gen"].pop("nfields", 4)
+            c["gen"]["names"] = gen.odd_names(random.Random(seed * 37 + i), max(3, min(nf, 8)), blanks=True, nonascii=True)
+            c["odd_names"] = True
     if tier == "thorough":
         for a in ("example_plt_2d", "example_plt_3d", "plt_eb_3d"):
             cs.append({"asset": a, "sel_seed": seed, "nsel": 3})
@@ -99,6 +103,8 @@ def run_case(case, work, rec):
         digest = common.sha(case["gen"], case["fmt"])
         layout_nt = any(m.nfiles(lv) >= 2 or m.nonmonotone(lv) for lv in range(m.nlevels))
         rec.sample({"plotfile": gen.describe(m), "fmt": case["fmt"]})
+        if case.get("odd_names"):
+            rec.count("unusual_field_names")
     names = full.names
     finest = len(full.levels) - 1
     if len(set(names)) != len(names):
